@@ -62,7 +62,9 @@ def run_shard(shard, ctx):
             continue
         cfg = unit['cfg']
         name = gen.cfg_str(cfg)
-        alg = gen.make_algebra(cfg)
+        alg = gen.make_or_skip(ctx, cfg)
+        if alg is None:
+            continue
         iso = Iso(alg)
         ctx.count('algebras')
         if iso.pss_sign < 0:
